@@ -136,7 +136,7 @@ def run(ctx):
                 if fb is None or not m.endswith('::fmt'):
                     continue
                 per_field = {}
-                for c in [c for g in prog.group(fb.root) for c in g.calls]:
+                for c in [c for g in prog.group(fb.root, raw=True) for c in g.calls]:      # as compiled: the accessors are looked at one by one
                     ab = prog.bodies.get(c.res or '') or prog.bodies.get(c.fn or '')
                     if ab is None or not ab.name.startswith(ty + '::') or ab.rec.get('argc') != 1:
                         continue
